@@ -24,6 +24,8 @@ SEED_EXPECT = {
     "C14-1": "R14.2", "C14-2": "R14.5", "C15-1": "R15.1", "C15-2": "R15.2", "C16-1": "R16.1", "C16-2": "R16.1",
     "C17-1": "R17.7", "C17-2": "R17.5", "C18-1": "R18.2", "C18-2": "R18.7", "C19-1": "R19.2d", "C19-2": "R19.3a",
     "C20-1": "R20.1", "C20-2": "R20.4",
+    "C16-3": "R16.1", "C16-4": "R16.1", "C15-3": "R15.3", "C14-3": "R14.6", "C05-3": "R5.6", "C05-4": "R5.5",
+    "C03-3": "R3.6", "C03-4": "R3.6", "C11-1": "R11.7", "C11-2": "R11.6",
 }
 byprop = {}
 for c, (prop, exp, what) in FIXES.items():
